@@ -16,10 +16,13 @@ Inductive c10case :=
        (o_la : list (bytes * bytes))
 (* drm request on an asset: pre-encrypted flag, encryption data prepared;
    MPD refused?, segment encrypted again? *)
-| CPre (id : Z) (preEnc hasEnc : bool) (o_mpdRefused o_encrypted : bool).
+| CPre (id : Z) (preEnc hasEnc : bool) (o_mpdRefused o_encrypted : bool)
+(* one representation of one server instance: codec encryptable, loaded from stored metadata;
+   protection data prepared (or the track recognised as pre-encrypted)? *)
+| CLoad (id : Z) (encryptable stored : bool) (o_prepared : bool).
 
 Definition c_id (c : c10case) : Z :=
-  match c with CFn id _ _ _ _ => id | CLa id _ _ _ => id | CSeg id _ _ _ _ _ _ _ _ _ => id | CPre id _ _ _ _ => id end.
+  match c with CFn id _ _ _ _ => id | CLa id _ _ _ => id | CSeg id _ _ _ _ _ _ _ _ _ => id | CPre id _ _ _ _ => id | CLoad id _ _ _ => id end.
 
 Definition res_view (r : res bytes) : Z * bytes :=
   match r with Ok b => (0, b) | Err _ => (1, []) | Panic _ => (2, []) end.
@@ -74,6 +77,7 @@ Definition case_ok (c : c10case) : bool :=
   | CSeg _ mode an la ct om oi ok oiv ola => seg_ok mode an la ct om oi ok oiv ola
   | CPre _ pre has refused enc =>
     Bool.eqb (negb (is_ok (liveMPDdrm true pre))) refused && Bool.eqb (encryptsTrack true has) enc
+  | CLoad _ e s o => Bool.eqb (readInitPrepares e s) o
   end.
 
 Definition mismatches (cs : list c10case) : list Z := map c_id (filter (fun c => negb (case_ok c)) cs).
@@ -88,4 +92,5 @@ Definition model_view (c : c10case) : Z * bytes * list (bytes * bytes) :=
     | _, _, _ => (-1, [], [])
     end
   | CPre _ pre has _ _ => ((if is_ok (liveMPDdrm true pre) then 0 else 1) + (if encryptsTrack true has then 10 else 0), [], [])
+  | CLoad _ e s _ => ((if readInitPrepares e s then 1 else 0), [], [])
   end.
